@@ -97,11 +97,11 @@ pub fn build_cuts(rng: &mut Rng, nconn: usize, max_calls: usize, allow_write_fai
 }
 
 fn check(scn: &Scenario, rep: &mut Report) {
-    let res = vnet::catch(|| run_world(&scn.world()));
+    let res = run_world_caught(scn.world());
     rep.eval(scn.hash());
     let out = match res {
         Err(p) => {
-            rep.violation("C10/panic-in-server", format!("panic: {p}; {}", scn.describe()), scn.to_json("c10"));
+            world_failure(rep, "C10", &p, format!("{}", scn.describe()), scn.to_json("c10"));
             return;
         }
         Ok(o) => o,
@@ -175,7 +175,7 @@ pub fn run(cfg: &Cfg) -> Report {
     if let Some(r) = &cfg.replay {
         let scn = Scenario::from_json(r);
         check(&scn, &mut rep);
-        rep.notes.push(format!("{:?}", vnet::catch(|| run_world(&scn.world()))));
+        rep.notes.push(format!("{:?}", run_world_caught(scn.world())));
         return rep;
     }
     let miri = cfg.layer == "miri";
